@@ -28,3 +28,23 @@ pub assume_specification [ char::from_u32 ] (i: u32) -> (r: Option<char>)
     ensures
         is_scalar_value(i) ==> r == Some(i as char),
         !is_scalar_value(i) ==> r.is_none();
+// S8 / rule N18 (kani: std_spec_le_bytes, complete over all values): `{u16,i16,u32,i32}::from_le_bytes(..)` is written as a call of these
+// wrappers by the extractor (assume_specification cannot name them: their parameter type is `[u8; size_of::<Self>()]`). Stated so that a
+// change which starts to use them stays inside the accepted subset (decided) instead of "unsupported std function" (undecided).
+#[verifier::external_body]
+pub fn vx_u16_from_le_bytes(bytes: [u8; 2]) -> (r: u16)
+    ensures r as int == bytes@[0] as int + 256 * (bytes@[1] as int),
+{ u16::from_le_bytes(bytes) }
+#[verifier::external_body]
+pub fn vx_i16_from_le_bytes(bytes: [u8; 2]) -> (r: i16)
+    ensures r as int == (if bytes@[1] < 128 { bytes@[0] as int + 256 * (bytes@[1] as int) } else { bytes@[0] as int + 256 * (bytes@[1] as int) - 65536 }),
+{ i16::from_le_bytes(bytes) }
+#[verifier::external_body]
+pub fn vx_u32_from_le_bytes(bytes: [u8; 4]) -> (r: u32)
+    ensures r as int == bytes@[0] as int + 256 * (bytes@[1] as int) + 65536 * (bytes@[2] as int) + 16777216 * (bytes@[3] as int),
+{ u32::from_le_bytes(bytes) }
+#[verifier::external_body]
+pub fn vx_i32_from_le_bytes(bytes: [u8; 4]) -> (r: i32)
+    ensures r as int == (if bytes@[3] < 128 { bytes@[0] as int + 256 * (bytes@[1] as int) + 65536 * (bytes@[2] as int) + 16777216 * (bytes@[3] as int) }
+                         else { bytes@[0] as int + 256 * (bytes@[1] as int) + 65536 * (bytes@[2] as int) + 16777216 * (bytes@[3] as int) - 0x1_0000_0000 }),
+{ i32::from_le_bytes(bytes) }
